@@ -2373,5 +2373,6 @@ func repairWalFile(src, dst string) error {
 		}
 	}
 
-	return nil
+	// the repaired file replaces records that were already durable
+	return out.Sync()
 }
